@@ -228,6 +228,32 @@ func typedValues() []*pb.TypedValue {
 			&pb.TypedValue{Value: &pb.TypedValue_ProtoBytes{ProtoBytes: []byte{byte(k)}}},
 		)
 	}
+	// pairs that differ only where a lossy comparison (float32/float64 image, length-only, prefix-only,
+	// case-folding) no longer sees it; no two of them denote the same number
+	dec := func(d int64, p uint32) *pb.TypedValue {
+		return &pb.TypedValue{Value: &pb.TypedValue_DecimalVal{DecimalVal: &pb.Decimal64{Digits: d, Precision: p}}}
+	}
+	ll := func(ss ...string) *pb.TypedValue {
+		sa := &pb.ScalarArray{}
+		for _, x := range ss {
+			sa.Element = append(sa.Element, &pb.TypedValue{Value: &pb.TypedValue_StringVal{StringVal: x}})
+		}
+		return &pb.TypedValue{Value: &pb.TypedValue_LeaflistVal{LeaflistVal: sa}}
+	}
+	out = append(out,
+		dec(1234567890, 3), dec(1234567891, 3), dec(16777216, 0), dec(16777217, 0), dec(9007199254740992, 2), dec(9007199254740993, 2),
+		dec(7, 400), dec(8, 400), dec(7, 4294967295), dec(-7, 4294967295),
+		&pb.TypedValue{Value: &pb.TypedValue_IntVal{IntVal: 9007199254740992}}, &pb.TypedValue{Value: &pb.TypedValue_IntVal{IntVal: 9007199254740993}},
+		&pb.TypedValue{Value: &pb.TypedValue_IntVal{IntVal: -1}},
+		&pb.TypedValue{Value: &pb.TypedValue_UintVal{UintVal: 18446744073709551614}}, &pb.TypedValue{Value: &pb.TypedValue_UintVal{UintVal: 18446744073709551615}},
+		&pb.TypedValue{Value: &pb.TypedValue_FloatVal{FloatVal: 1.5000001}}, &pb.TypedValue{Value: &pb.TypedValue_DoubleVal{DoubleVal: 1.5000000000000002}},
+		&pb.TypedValue{Value: &pb.TypedValue_BytesVal{BytesVal: []byte{1, 0}}}, &pb.TypedValue{Value: &pb.TypedValue_BytesVal{BytesVal: []byte{}}},
+		&pb.TypedValue{Value: &pb.TypedValue_StringVal{StringVal: "S1"}}, &pb.TypedValue{Value: &pb.TypedValue_StringVal{StringVal: "s1 "}},
+		&pb.TypedValue{Value: &pb.TypedValue_StringVal{StringVal: ""}},
+		&pb.TypedValue{Value: &pb.TypedValue_AsciiVal{AsciiVal: "s1"}},
+		&pb.TypedValue{Value: &pb.TypedValue_JsonVal{JsonVal: []byte("1.0")}}, &pb.TypedValue{Value: &pb.TypedValue_JsonIetfVal{JsonIetfVal: []byte("\"1\"")}},
+		ll(), ll("a"), ll("a", "b"), ll("a", "b", "c"), ll("a", "c"), ll("b", "a"),
+	)
 	// nil inner messages and nested lists
 	out = append(out,
 		&pb.TypedValue{Value: &pb.TypedValue_DecimalVal{}},
